@@ -316,7 +316,7 @@ def clamps(ctx, obs, rule='CLAMP'):
         txt = norm(s.value).replace(' ', '')
         if 'b2/d2' in txt and '(d2-b2)/d2' in txt:
             ok2 = True
-    obs.check(ok2, rule, q, 'the estimate is the convex combination b2/d2 * target + (d2 - b2)/d2 * sample covariance',
+    obs.soft(ok2, rule, q, 'the estimate is the convex combination b2/d2 * target + (d2 - b2)/d2 * sample covariance',
               'weights do not sum to one', '', where(prog, f, f.node))
 
 
